@@ -78,7 +78,7 @@ func runSteps(t vkit.TB, steps []Cell, whole Case) (sums []string, classes []str
 			return sums, classes, false
 		}
 		c := steps[i]
-		vkit.Case(res.class, res.nontriv, fmt.Sprintf("%s|%s|%s|%s|%v|%v|%s|%s|%s", c.Cmd, c.Identity, c.Claim, c.Target, c.AsResp, c.Pending, c.BodyTarget, c.When, c.MState))
+		vkit.Case(res.class, res.nontriv, fmt.Sprintf("%s|%s|%s|%s|%v|%v|%s|%s|%s|%s|%v|%s", c.Cmd, c.Identity, c.Claim, c.Target, c.AsResp, c.Pending, c.BodyTarget, c.When, c.MState, c.PrimeBy, c.FixedID, c.CodeState))
 		if res.nontriv {
 			vkit.Sample(res.class, map[string]any{"cell": c, "outcome": trunc(res.summary, 300)})
 		}
@@ -134,23 +134,47 @@ func cellsOf(sp *spec, id string, draw int) []Cell {
 		}
 		return out
 	}
+	out := []Cell{base}
 	if sp.Type == packet.SOCKS5TunnelRequestCmd || sp.Type == packet.DNSResolve || sp.Type == packet.DNSQuery {
 		// the in-body target_client_id: the mapping's target (default), omitted, an unrelated online client, the listen client itself
-		out := []Cell{base}
 		for _, bt := range []string{"absent", "S", "L"} {
 			c := base
 			c.BodyTarget = bt
 			out = append(out, c)
 		}
-		if draw == 0 {
-			out = append(out, mappingStates(base)...)
-		}
+	}
+	if draw > 0 {
 		return out
 	}
-	if draw == 0 && (sp.Object == "mapping" || sp.Object == "traffic") {
-		return append([]Cell{base}, mappingStates(base)...)
+	if sp.Object == "mapping" || sp.Object == "traffic" || sp.Type == packet.DNSResolve || sp.Type == packet.DNSQuery {
+		out = append(out, mappingStates(base)...)
 	}
-	return []Cell{base}
+	switch sp.Type {
+	case packet.MappingGet, packet.MappingDelete, packet.SOCKS5TunnelRequestCmd, packet.TunnelTrafficReport:
+		// mappings one side of which is client 0 (server-listened / target-less): identity 0 is nobody's identity
+		for _, tg := range []string{"zero-listen", "zero-target"} {
+			c := base
+			c.Target = tg
+			out = append(out, c)
+		}
+	}
+	if !sp.Special {
+		// the same packet (type, CommandId, body) was sent a moment ago by a client that is entitled to an answer
+		c := base
+		c.FixedID = true
+		c.PrimeBy = "T"
+		if id == "T" {
+			c.PrimeBy = "L"
+		}
+		out = append(out, c)
+	}
+	if sp.Type == packet.ConnectionCodeActivate || sp.Type == packet.ConnectionCodeList || sp.Type == packet.MappingList {
+		// the code was already activated by L, with exactly the request fields this cell presents
+		c := base
+		c.CodeState = "activated-by-L"
+		out = append(out, c)
+	}
+	return out
 }
 
 // mappingStates: the same cell against a victim mapping whose record exists but is not valid.
@@ -181,7 +205,7 @@ func TestMatrix(t *testing.T) {
 			}
 		}
 	}
-	vkit.Exhaustive("command type (13 registry + 8 special forms) x identity {none, challenged, L, T, S} x claim {empty, own, T, L} x pending {no, yes} for response forms x in-body target_client_id {mapping target, absent, S, L} for SOCKS5 / DNS requests x answer timing {after, before, during the write of the pending request} for response forms x victim mapping state {active, revoked, expired, inactive} for mapping operations", true)
+	vkit.Exhaustive("command type (13 registry + 8 special forms) x identity {none, challenged, L, T, S} x claim {empty, own, T, L} x pending {no, yes} for response forms x in-body target_client_id {mapping target, absent, S, L} for SOCKS5 / DNS requests x answer timing {after, before, during the write of the pending request} for response forms x victim mapping state {active, revoked, expired, inactive} for mapping operations x mappings with client 0 as listen / target side x same packet (type, CommandId, body) sent first by an entitled client for registry commands x code already activated by L with the same request fields for code operations", true)
 	if vkit.Shard() == 0 {
 		vkit.Extra("command_types_in_table", len(specs))
 	}
@@ -309,7 +333,7 @@ func genCell(t *rapid.T) Cell {
 		Cmd:      rapid.SampledFrom(names).Draw(t, "cmd"),
 		Identity: rapid.SampledFrom([]string{"none", "challenged", "L", "T", "S", "S", "none"}).Draw(t, "identity"),
 		Claim:    rapid.SampledFrom([]string{"empty", "own", "T", "L", "bogus", "T"}).Draw(t, "claim"),
-		Target:   rapid.SampledFrom([]string{"victim", "victim", "victim", "own", "missing"}).Draw(t, "target"),
+		Target:   rapid.SampledFrom([]string{"victim", "victim", "victim", "own", "missing", "zero-listen", "zero-target"}).Draw(t, "target"),
 		Str:      rapid.StringMatching(`[a-z0-9]{1,12}`).Draw(t, "str"),
 		N:        rapid.Int64Range(0, 1<<40).Draw(t, "n"),
 		TokenIs:  rapid.SampledFrom([]string{"id", "secret"}).Draw(t, "tokenIs"),
@@ -318,6 +342,9 @@ func genCell(t *rapid.T) Cell {
 	if sp.Type == packet.SOCKS5TunnelRequestCmd || ((sp.Type == packet.DNSResolve || sp.Type == packet.DNSQuery) && !sp.Resp) {
 		c.BodyTarget = rapid.SampledFrom([]string{"", "absent", "T", "S", "L", "S"}).Draw(t, "bodyTarget")
 	}
+	c.PrimeBy = rapid.SampledFrom([]string{"", "", "L", "T"}).Draw(t, "primeBy")
+	c.FixedID = rapid.Bool().Draw(t, "fixedID")
+	c.CodeState = rapid.SampledFrom([]string{"", "", "", "activated-by-L"}).Draw(t, "codeState")
 	c.MState = rapid.SampledFrom([]string{"", "", "", "revoked", "expired", "inactive"}).Draw(t, "mstate")
 	if sp.Resp {
 		c.When = rapid.SampledFrom([]string{"", "before", "during", "during"}).Draw(t, "when")
